@@ -316,8 +316,8 @@ def generate(run_seed: int, cfg: Dict[str, Any]) -> Dict[str, Any]:
     bases = rd.sample(BASES, n_bases)
     if rk.random() < 0.12:
         # a frame large enough that a hash over a sample / a prefix of the rows or columns would not see every cell
-        nbig = rk.choice([40, 130, 400, 2600])
-        ncol = rk.choice([3, 9]) if nbig < 1000 else 2
+        nbig = rk.choice([40, 130, 400, 2600, 12500])  # 12500: beyond a 10 000-row block / batch / sample
+        ncol = rk.choice([3, 9]) if nbig < 1000 else (2 if nbig < 10000 else 1)
         big = {"cols": [{"name": "k", "dtype": None, "values": [f"s{i % 7}" for i in range(nbig)]}]
                + [{"name": f"v{j}", "dtype": "int64" if j % 2 == 0 else "float64",
                    "values": [((i * (j + 3)) % 11) if j % 2 == 0 else ((i * (j + 5)) % 13) / 4.0 for i in range(nbig)]}
